@@ -113,15 +113,27 @@ func (d *DNSFilter) filterSetProperties(
 		flt.URL,
 	)
 
-	defer func(oldURL, oldName string, oldEnabled bool, oldUpdated time.Time, oldRulesCount int) {
+	defer func(
+		oldURL, oldName string,
+		oldEnabled bool,
+		oldUpdated time.Time,
+		oldRulesCount int,
+		oldChecksum uint32,
+	) {
 		if err != nil {
 			flt.URL = oldURL
 			flt.Name = oldName
 			flt.Enabled = oldEnabled
 			flt.LastUpdated = oldUpdated
 			flt.RulesCount = oldRulesCount
+
+			// The checksum describes the stored file, which a failed call
+			// has not replaced.  Without it the next refresh would take the
+			// same contents for new ones, and contents without rules for
+			// unchanged ones.
+			flt.checksum = oldChecksum
 		}
-	}(flt.URL, flt.Name, flt.Enabled, flt.LastUpdated, flt.RulesCount)
+	}(flt.URL, flt.Name, flt.Enabled, flt.LastUpdated, flt.RulesCount, flt.checksum)
 
 	flt.Name = newList.Name
 
